@@ -22,10 +22,10 @@ CLAIMED = {
             "parse_args / parse_arg end with a tree or a SyntaxError whose markers index into the caller's string, the source's asserts are "
             "unreachable (induction over the token list, the delimiter stack and the expression tree through all five parser stages); a "
             "doubled space parses to the same tree up to positions or fails at the same place (lexer look-ahead lemma + position-"
-            "parametricity of every parser stage, Proofs/ParseSim.v); the re-print clause is refuted by a witness (known finding F5); "
+            "parametricity of every parser stage, Proofs/ParseSim.v), and so does a space added next to '->' ',' '+' or just inside a "
+            "delimiter (on delimiter trees, Proofs/ParseSpace.v); the re-print clause is refuted by a witness (known finding F5); "
             "tied to /repo by regenerated tables and an exhaustive + random differential correspondence against parse_op (class, site, "
-            "positions, tree); inserting a space where none was (next to operators / delimiters) and re-printing are decided by direct oracles "
-            "on the implementation (search step, not theorems)",
+            "positions, tree); re-printing of the trees that do print is decided by a direct oracle on the implementation (search step)",
             "Coq proof over a hand-written executable model + generated-table lemmas + differential correspondence", "DESIGN.md 3/C12"),
     "C03": ("Theorem (Props/C03.v): for every string the parser model never reaches an internal failure (assert) - the first stage of every "
             "entry point. The rest of the property (rule layer, solver, argument binding, no backend call before the exception) is decided "
